@@ -187,3 +187,11 @@ Proof.
               parts msg root H1 H2 H3) as (ms & A & B & _).
   exists ms. split; assumption.
 Qed.
+
+(* The constants written in the model are the constants of the SOURCE: coq/Generated/SrcConsts.v is regenerated
+   from /repo/buidl/*.py by harness/gen_coq_consts.py on every run; the statements are spelled out in
+   Proofs/ConstsTie.v (secp256k1_is_source_stmt). *)
+From V Require Proofs.ConstsTie.
+Theorem C13_constants_match_source : ConstsTie.secp256k1_is_source_stmt.
+Proof. exact ConstsTie.secp256k1_is_source. Qed.
+Print Assumptions C13_constants_match_source.
